@@ -1306,9 +1306,9 @@ def _run(ctx):
                 grc = rng.choice(same_shape_pool(grc) if tookT else pR); ops_.append(("sr", grc))
         hist_case(nD_, nR_, ops_, wrong_adjoint=(kind == "fn" and rng.random() < 0.2), gd0=gd_, gr0=gr_, kind=kind)
 
-    for _ in range(44 if not thorough else 300):
+    for _ in range(36 if not thorough else 300):
         random_history("fn")
-    for _ in range(12 if not thorough else 80):
+    for _ in range(10 if not thorough else 80):
         random_history("mb")
     # fixed histories: the witnesses of cache_stale_counterexample / tGetMatrix_history_dependent_counterexample, re-assignment before caching
     hist_case(4, 4, ["gm", ("sd", gI(2, 2, "F"))], gd0=g1("Continuous1D", 4), gr0=g1("Continuous1D", 4))
